@@ -229,7 +229,7 @@ class PeekAll(Terminal):
         return f"{self.tag_str()}PEEK_ALL"
 
     def parse(self, state: ParserState, pairs: list[Pair]) -> bool:  # noqa: D102
-        position = state.pos
+        start = position = state.pos
         stack_size = len(state.user_stack)
         children: list[Pair] = []
 
@@ -237,6 +237,9 @@ class PeekAll(Terminal):
             # XXX: can `literal` be empty?
             if not state.input.startswith(literal, position):
                 state.fail(literal)
+                # Implicit trivia skipped after an earlier entry may have moved
+                # the cursor; a failed PEEK_ALL must not consume anything.
+                state.pos = start
                 return False
 
             position += len(literal)
